@@ -100,7 +100,6 @@ Next == /\ t = Blank
 (* cases stay generated and are predicted strictly; the spec only names the class(es) whose   *)
 (* trigger predicate a case satisfies, so that the driver can match a mismatch on it against  *)
 (* known_findings.jsonl.                                                                      *)
-StrCells == { t.rows[i][j][2] : i \in 1..Len(t.rows), j \in 1..NCols(t) } \ {TRUE, FALSE}
 StringsOf == { t.rows[i][j][2] : <<i, j>> \in { ij \in (1..Len(t.rows)) \X (1..NCols(t)) : IsStr(t.rows[ij[1]][ij[2]]) } }
 \* minimal style: a field with a line break but no delimiter / quote is written without quotes
 DevLinebreak == o.style = "minimal" /\ \E s \in StringsOf : (Has(s, CR) \/ Has(s, LF)) /\ ~Has(s, o.fd) /\ ~Has(s, o.qc)
@@ -122,7 +121,9 @@ Emit == IF t = Blank THEN TRUE
         ELSE PrintT(ToJson([k |-> "csv", o |-> o, names |-> t.names, rows |-> t.rows, doc |-> Doc, dev |-> Dev]))
 \* model-internal obligations
 Law == t = Blank \/ RoundTripLaw(t, o)
-\* the quoting rule is also necessary: written without quotes, a string that MustQuote is not read back
+\* the quoting rule is also necessary: written without quotes as the only field of a file, a string that
+\* MustQuote is not read back (with inference off, so that every cell is decided by the spec)
 Necessity == t = Blank \/ \A s \in StringsOf :
-               MustQuote(s, o) => ~ReadsBackTo(s \o o.ld, [o EXCEPT !.header = "none"], T(<<>>, << <<S(s)>> >>))
+               MustQuote(s, o) => LET r == ReadTable(s \o o.ld, [o EXCEPT !.header = "none", !.infer = FALSE])
+                                  IN ~(r[1] = "ok" /\ TableAgrees(r[2], T(<<>>, << <<S(s)>> >>)))
 =============================================================================
